@@ -121,7 +121,7 @@ static const char *HDRS[] = {
 };
 static const char *BADHDRS[] = { "{\"typ\":\"JWT\"}", "{\"alg\":256}", "{\"alg\":null}", "{\"alg\":[\"HS256\"]}", "{\"alg\":\"XX\"}", "{\"alg\":\"hs256\"}",
 	"[\"alg\",\"HS256\"]", "\"HS256\"", "123", "", "{", "{\"alg\":\"HS256\"", "{\"alg\":\"HS256\",}", "{'alg':'HS256'}", "null", "{\"alg\":\"HS256\"}x",
-	"{\"alg\":\"HS256\\u0000\"}", "{\"alg\":\"\"}", "{\"alg\":true}" };
+	"{\"alg\":\"HS256\\u0000\"}", "{\"alg\":\"\"}", "{\"alg\":true}", "{\"alg\":\"%s%s%s%s%n\"}", "{\"alg\":\"HS256\",\"typ\":\"%n%n%s\",\"kid\":\"%999999d\"}" };
 static const char *PAYLOADS[] = { "{\"iss\":\"c06\"}", "{\"iss\":\"c06\",\"exp\":99999999999,\"admin\":true,\"nested\":{\"a\":[1,2,3]}}",
 	"{\"iss\":\"c06\",\"nbf\":0,\"sub\":\"\\u00e9\\ud83d\\ude00\"}", "{\"iss\":\"c06\",\"exp\":1}", "{\"iss\":\"other\"}", "{}",
 	"{\"iss\":\"c06\",\"exp\":\"soon\"}", "{\"iss\":\"c06\",\"n\":1e400}", "{\"iss\":\"c06\",\"n\":-9223372036854775808}" };
